@@ -80,6 +80,11 @@ BANPD == BANP("default", NsSubj(ESel),
 BANPX == BANP("other", NsSubj(ESel), <<AR("d", "Deny", <<NsSubj(ESel)>>, TRUE, <<>>)>>, <<>>)
 
 O(op) == [op |-> op]
+(* SetResources calls: a relabelled namespace + an updated pod + a sibling; a policy whose name is taken (error after the       *)
+(* namespace was inserted, the pod is not); a fresh policy + a renumbered pod                                                *)
+SR1 == [op |-> "SetRes", nss |-> <<Ns("ns1", L1("team", "y"))>>, nps |-> <<>>, pods |-> <<PBv, PA3>>]
+SR2 == [op |-> "SetRes", nss |-> <<Ns("ns2", NoL)>>, nps |-> <<NP2>>, pods |-> <<PA1p>>]
+SR3 == [op |-> "SetRes", nss |-> <<>>, nps |-> <<NP1v>>, pods |-> <<PA1n>>]
 OpsFull ==
   { [op |-> "InsNs", nso |-> Ns("ns1", L1("team", "x"))], [op |-> "InsNs", nso |-> Ns("ns1", L1("team", "y"))],
     [op |-> "InsNs", nso |-> Ns("ns2", L1("team", "x"))], [op |-> "InsNs", nso |-> Ns("ns2", NoL)],
@@ -97,6 +102,7 @@ OpsFull ==
     [op |-> "DelANP", name |-> "anp-a"], [op |-> "DelANP", name |-> "anp-b"], [op |-> "DelANP", name |-> "anp-c"],
     [op |-> "InsBANP", banp |-> BANPD], [op |-> "InsBANP", banp |-> BANPX],
     [op |-> "DelBANP", name |-> "default"], [op |-> "DelBANP", name |-> "other"],
+    SR1, SR2, SR3, O("Clear"),
     O("Sweep") }
 
 (* the reduced catalogue contains, for every kind, a delete and an insert of the same key with other content, *)
@@ -105,10 +111,10 @@ OpsSmall ==
   { [op |-> "InsNs", nso |-> Ns("ns1", L1("team", "y"))], [op |-> "DelNs", name |-> "ns1"],
     [op |-> "InsNs", nso |-> Ns("ns2", L1("team", "x"))], [op |-> "DelNs", name |-> "ns2"],
     [op |-> "InsPod", pod |-> PBv], [op |-> "DelPod", ns |-> "ns2", name |-> "b-x1"], [op |-> "InsPod", pod |-> PA1p], [op |-> "InsPod", pod |-> PA1n], [op |-> "InsPod", pod |-> PA3],
-    [op |-> "DelPod", ns |-> "ns1", name |-> "a-x1"], [op |-> "DelPod", ns |-> "ns2", name |-> "nosuch"],
+    [op |-> "DelPod", ns |-> "ns1", name |-> "a-x1"], 
     [op |-> "DelNP", ns |-> "ns1", name |-> "np3"], [op |-> "InsNP", np |-> NP1v], [op |-> "DelNP", ns |-> "ns1", name |-> "np1"],
-    [op |-> "InsANP", anp |-> ANPB], [op |-> "InsANP", anp |-> ANPC], [op |-> "InsANP", anp |-> ANPAv], [op |-> "DelANP", name |-> "anp-a"],
-    [op |-> "InsBANP", banp |-> BANPD], [op |-> "DelBANP", name |-> "default"], O("Sweep") }
+    [op |-> "InsANP", anp |-> ANPB], [op |-> "InsANP", anp |-> ANPAv], [op |-> "DelANP", name |-> "anp-a"],
+    [op |-> "InsBANP", banp |-> BANPD], [op |-> "DelBANP", name |-> "default"], SR2, O("Sweep") }
 
 (* a still smaller catalogue for one more step of exhaustive depth (thorough tier): one invalidating update per kind *)
 OpsTiny ==
